@@ -20,6 +20,8 @@ import (
 	"math/rand"
 	"os"
 	"strings"
+	"sync/atomic"
+	"time"
 
 	pf "github.com/weedbox/pokerface"
 	"github.com/weedbox/pokerface/combination"
@@ -107,7 +109,10 @@ type hand struct {
 	g        pf.Game
 	script   HScript
 	steps    int
-	panicked bool // the engine panicked on the run's own game: the run stops
+	panicked bool          // the engine panicked on the run's own game: the run stops
+	before   *pf.GameState // clone of the state before the call (what a hanging call started from); kept when watch is set
+	watch    bool
+	hung     bool // a call on the run's own game never returned: the game belongs to the abandoned goroutine, nothing more is done with it
 }
 
 func cloneGS(gs *pf.GameState) *pf.GameState {
@@ -140,6 +145,31 @@ func callOn(g pf.Game, op HOp) (err error) {
 	}()
 	return callOnRaw(g, op)
 }
+
+// callWatched: callOn under a watchdog. A call that does not come back (seeded change R5h-A: an unbounded walk round the
+// table when no seat holds the big blind) is recorded as the call's error ("HANG: ...") - the awaited step did not succeed -
+// instead of hanging the driver until the check times out with no verdict. The goroutine is abandoned with its game;
+// after three hangs the driver stops starting new work (driverStop).
+const hangLimit = 10 * time.Second
+
+var hangs int32
+var driverStop bool
+
+func callWatched(g pf.Game, op HOp) error {
+	done := make(chan error, 1)
+	go func() { done <- callOn(g, op) }()
+	select {
+	case err := <-done:
+		return err
+	case <-time.After(hangLimit):
+		if atomic.AddInt32(&hangs, 1) >= 3 {
+			driverStop = true
+		}
+		return fmt.Errorf("HANG: the call did not return within %v", hangLimit)
+	}
+}
+
+func isHang(err error) bool { return err != nil && strings.HasPrefix(err.Error(), "HANG") }
 
 func callOnRaw(g pf.Game, op HOp) error {
 	switch op.Op {
@@ -199,6 +229,9 @@ func callOnRaw(g pf.Game, op HOp) error {
 
 // do performs op on the hand's own game (a "main" line)
 func (h *hand) do(op HOp) error {
+	if h.hung {
+		return fmt.Errorf("harness: the run ended with a call that never returned")
+	}
 	h.steps++
 	h.script.Ops = append(h.script.Ops, op)
 	if op.Op == "Rehydrate" {
@@ -208,8 +241,15 @@ func (h *hand) do(op HOp) error {
 	}
 	extra := M{"kind": "main"}
 	var err error
+	if h.watch {
+		h.before = cloneGS(h.g.GetState())
+	}
 	if op.Op == "Start" {
-		err = callOn(h.g, HOp{Op: "Start"})
+		err = callWatched(h.g, HOp{Op: "Start"})
+		if isHang(err) {
+			h.hang(op, err, extra)
+			return err
+		}
 		extra["shuffled"] = cards(h.g.GetState().Meta.Deck)
 		if err == nil && h.script.Cfg.Deck != nil {
 			// nothing is dealt before the first ReadyForAll: the state is the source of truth
@@ -218,7 +258,11 @@ func (h *hand) do(op HOp) error {
 			h.script.Cfg.Deck = append([]string{}, h.g.GetState().Meta.Deck...)
 		}
 	} else {
-		err = callOn(h.g, op)
+		err = callWatched(h.g, op)
+		if isHang(err) {
+			h.hang(op, err, extra)
+			return err
+		}
 	}
 	h.tw.emit(h.run, false, op.Op, op.Seat, op.X, err, h.g.GetState(), extra)
 	if err != nil && strings.HasPrefix(err.Error(), "PANIC") {
@@ -227,18 +271,35 @@ func (h *hand) do(op HOp) error {
 	return err
 }
 
+// hang: the call on the run's own game did not return. The game is still being written to by the abandoned goroutine, so
+// the line carries the state the call STARTED from (rebuilt from the last recorded one) and the run ends.
+func (h *hand) hang(op HOp, err error, extra M) {
+	h.panicked = true
+	h.hung = true
+	if h.before != nil {
+		h.tw.emit(h.run, false, op.Op, op.Seat, op.X, err, h.before, extra)
+	}
+}
+
 // probe performs op on a JSON clone of the current state (a side branch of length one)
 func (h *hand) probe(op HOp) error {
+	if h.hung {
+		return fmt.Errorf("harness: the run ended with a call that never returned")
+	}
 	// recorded in the script as "?<op>": a replay of the script performs the same side branches
 	h.script.Ops = append(h.script.Ops, HOp{"?" + op.Op, op.Seat, op.X})
 	g := pf.NewPokerFace().NewGameFromState(cloneGS(h.g.GetState()))
-	err := callOn(g, op)
+	err := callWatched(g, op)
+	if isHang(err) {
+		h.tw.emit(h.run, false, op.Op, op.Seat, op.X, err, h.g.GetState(), M{"kind": "probe"})
+		return err
+	}
 	h.tw.emit(h.run, false, op.Op, op.Seat, op.X, err, g.GetState(), M{"kind": "probe"})
 	return err
 }
 
 func (h *hand) closed() bool {
-	return h.panicked || h.g.GetState().Status.CurrentEvent == "GameClosed"
+	return driverStop || h.panicked || h.g.GetState().Status.CurrentEvent == "GameClosed"
 }
 
 // ---- configuration generator -------------------------------------------------------
@@ -466,6 +527,8 @@ type randOpts struct {
 	rehydrate     int  // 1 in k steps: JSON round trip of the main game (0: never)
 	bbOnly        bool
 	passive       bool // check / call down to the river
+	watch         bool // keep a clone of the state before every call, so that a call that never returns can be recorded
+	noBB          bool // layouts in which no seat holds the big blind (and, half of the time, none the small blind)
 }
 
 var allActions = []string{"Fold", "Check", "Call", "Allin", "Pass", "Bet", "Raise"}
@@ -531,6 +594,7 @@ func (h *hand) forkOffered(r *rand.Rand) {
 
 func playRandom(tw *traceWriter, run int, r *rand.Rand, cfg HCfg, ro randOpts) *hand {
 	h := newHand(tw, run, cfg)
+	h.watch = ro.watch
 	n := len(cfg.Bank)
 	st := styles[r.Intn(len(styles))]
 	if ro.passive || (ro.bbOnly && r.Intn(3) == 0) || r.Intn(12) == 0 {
@@ -645,6 +709,8 @@ func cmdHoldemRandom(args []string) {
 	runBase := fs.Int("runbase", 0, "")
 	realShuffle := fs.Bool("realshuffle", false, "keep the engine's own shuffle in every run")
 	fullDeck := fs.Bool("fulldeck", false, "configurations that consume the whole deck when played to the river")
+	watch := fs.Bool("watch", false, "record a call that never returns (HANG) with the state it started from")
+	noBB := fs.Bool("nobb", false, "layouts in which no seat holds the big blind")
 	fs.Parse(args)
 	tw := newTraceWriter(*out)
 	r := rand.New(rand.NewSource(*seed))
@@ -654,6 +720,24 @@ func cmdHoldemRandom(args []string) {
 		cfg := genCfg(r, *bbOnly)
 		if *realShuffle {
 			cfg.Deck = nil
+		}
+		if *noBB {
+			// the engine accepts any layout with a dealer: nobody holds the big blind (half of the time nobody the small blind
+			// either) - e.g. a button-blind game in which only the dealer is named
+			dropSB := r.Intn(2) == 0
+			for k, ps := range cfg.Pos {
+				keep := []string{}
+				for _, x := range ps {
+					if x == "bb" || (dropSB && x == "sb") {
+						continue
+					}
+					keep = append(keep, x)
+				}
+				cfg.Pos[k] = keep
+			}
+		}
+		if driverStop {
+			break
 		}
 		if *fullDeck {
 			// seats x hole cards + 3 burns + 5 board cards = the whole deck (or one card less)
@@ -680,7 +764,7 @@ func cmdHoldemRandom(args []string) {
 				cfg.Bank = append(cfg.Bank, 500+r.Int63n(500))
 			}
 		}
-		ro := randOpts{probeRefusals: *probe, forkActions: *fork, wrongOps: *wrong, rehydrate: *rehy, bbOnly: *bbOnly, passive: *fullDeck}
+		ro := randOpts{probeRefusals: *probe, forkActions: *fork, wrongOps: *wrong, rehydrate: *rehy, bbOnly: *bbOnly, passive: *fullDeck, watch: *watch || *noBB, noBB: *noBB}
 		h := playRandom(tw, *runBase+i, r, cfg, ro)
 		steps += h.steps
 		if !h.closed() {
@@ -722,6 +806,7 @@ func readScripts(path string) []HScript {
 // the hand is closed, the run is finished with seeded choices among the offered actions.
 func replayScript(tw *traceWriter, s HScript, finish bool, r *rand.Rand) *hand {
 	h := newHand(tw, s.Run, s.Cfg)
+	h.watch = true // a script is short: a call that never returns is recorded with the state it started from
 	for _, op := range s.Ops {
 		if strings.HasPrefix(op.Op, "?") {
 			h.probe(HOp{op.Op[1:], op.Seat, op.X})
